@@ -40,6 +40,9 @@ fn gen(t: Tier, _seed: u64, emit: &mut dyn FnMut(Case)) {
             }
         }
         // a deeper boundary exploration from the seeds that sit exactly on a word boundary
+        for n in long_lengths(cid.bits()) {
+            emit(Case::Boundary { cid, n, headed: n % 2 == 0, depth: 1 });
+        }
         if t.thorough() {
             for m in 1..=2 {
                 emit(Case::Boundary { cid, n: 64 * m / cid.bits(), headed: m == 2, depth: 3 });
